@@ -1934,7 +1934,7 @@ class Process:
         # We first divide it for clock ticks and then add uptime returning
         # seconds since the epoch.
         # Also use cached value if available.
-        bt = BOOT_TIME or boot_time()
+        bt = BOOT_TIME if BOOT_TIME is not None else boot_time()
         return (ctime / CLOCK_TICKS) + bt
 
     @wrap_exceptions
